@@ -523,7 +523,14 @@ class Engine:
                         v = v.captures[p[1]]
                     # MaybeUninit / ManuallyDrop / MaybeDangling wrappers: identity
                 elif isinstance(v, Opaque):
-                    v = Opaque('?', '%s.%d' % (v.name, p[1]))
+                    u = self._unfold(v)
+                    if u is not None:
+                        try:
+                            v = u.fields[p[1]]
+                        except IndexError:
+                            raise Unsupported('field %d of %r' % (p[1], u))
+                    else:
+                        v = Opaque('?', '%s.%d' % (v.name, p[1]))
                 else:
                     raise Unsupported('field %d of %r' % (p[1], v))
             elif k == 'down':
@@ -844,6 +851,17 @@ class Engine:
         if k == 'closure':
             return Closure(rv[1], [self.operand(frame, f) for f in rv[2]])
         raise Unsupported('rvalue %r' % (rv,))
+
+    def _unfold(self, v):
+        """an opaque node whose kind was decided on this path, expanded one level by the check's callback (children opaque again)"""
+        cb = self.flags.get('opaque_unfold')
+        key = 'kind:' + v.name
+        if cb is None or key not in self.choices:
+            return None
+        store = self.extra.setdefault('unfolded', {})
+        if v.name not in store:
+            store[v.name] = cb(self, v, self.choices[key])
+        return store[v.name]
 
     def discriminant(self, v):
         if isinstance(v, Adt):
